@@ -143,9 +143,12 @@ theorem replay_rejected (r : Stream) (k : Nat) (f : WireFrame) (iv : Option IV) 
             | none => exact ⟨_, rfl⟩
             | some i =>
               simp only [Bool.false_eq_true, if_false]
-              by_cases hcond : sl.key = k ∧ sl.nonce = i.nonce 0 ∧ sl.aad = ⟨some (r.dig.fr, r.dig.fs), f.flag, f.len⟩
-              · exfalso; apply hdiff; rw [hcond.2.2]
-              · exact ⟨_, by rw [if_neg hcond]⟩
+              by_cases hie : i = r.encIV
+              · exact ⟨_, by rw [if_pos hie]⟩
+              · rw [if_neg hie]
+                by_cases hcond : sl.key = k ∧ sl.nonce = i.nonce 0 ∧ sl.aad = ⟨some (r.dig.fr, r.dig.fs), f.flag, f.len⟩
+                · exfalso; apply hdiff; rw [hcond.2.2]
+                · exact ⟨_, by simp only []; rw [if_neg hcond]⟩
       obtain ⟨e, he'⟩ := this
       exact ⟨e, by rw [he']⟩
 
